@@ -13,7 +13,7 @@ buckets empty), from which `no_null_deref` follows: `janet_dict_find` never retu
 its result, so none of the theorems needs a side condition on the run.
 -/
 import JanetModel.Table.Pow2
-import JanetModel.Seq.Lemmas
+import JanetModel.Seq.BufOps
 
 namespace JanetModel.Props.C04
 open JanetModel.Table JanetModel.Gen.Table
@@ -699,5 +699,341 @@ theorem putindex_fills_gap : putindexFillsArrayGap = true ∧ putindexFillsBuffe
 theorem putindex_gap_uninit : (Arr.putindexWith false (Arr.new 0) 2 5).1.items = [none, none, some 5] := by decide
 
 example : (Arr.putindexWith true (Arr.new 0) 2 5).1.items = [some 0, some 0, some 5] := by decide
+
+
+/-! ## Session 3 — buffers: every function of buffer.c that changes a buffer, `janet_put` / `janet_putindex` on
+buffers, and the bit functions.
+
+Shape of every statement: from a buffer representing the byte list `xs` (`b.Abs xs`), the operation either returns the
+error constructor with the buffer **unchanged** (`= (b, .err)`), or succeeds in a state representing the list-level
+result.  The push loops are the exception the C really has: an ill-typed argument / overflow in the middle raises the
+error *after* the earlier arguments were pushed — the list-level semantics `specPush*` says exactly which bytes are
+there then.  Since the result state satisfies `Abs` — all cells below `count` initialised, storage size = `capacity`,
+`0 < capacity ≤ INT32_MAX` — and writes outside the storage are dropped by the model's `writeAt` / `setIfInBounds`
+(so a dropped write would break `Rep`), each `abs_buf_*` theorem implies that the op's memory accesses were inside
+the storage; the `no_oob_*` theorems state the ranges explicitly. -/
+
+/-- **no_oob, push family**: after a successful `janet_buffer_extra(n)` the `n` cells from `count` on are inside the
+storage — the range `janet_buffer_push_bytes/u8/u16/u32/u64` then write -/
+theorem no_oob_push (b : Buf) (xs : List Nat) (h : b.Abs xs) (n : Int) (hn : 0 ≤ n) (hok : (b.extra n).2 = .ok) :
+    (b.count : Int) + n ≤ (b.extra n).1.cells.size ∧ (b.extra n).1.count = b.count := by
+  rcases Buf.extra_abs h n hn with ⟨_, he⟩ | ⟨_, _, hA, hroom, hcnt⟩
+  · rw [he] at hok; cases hok
+  · have := hA.cap; have := hA.pos
+    exact ⟨by omega, hcnt⟩
+
+theorem abs_buf_push_u8 (b : Buf) (xs : List Nat) (h : b.Abs xs) (v : Nat) :
+    ((xs.length : Int) + 1 > i32max ∧ b.pushU8 v = (b, .err)) ∨
+    ((b.pushU8 v).2 = .ok ∧ (b.pushU8 v).1.Abs (xs ++ [v])) := by
+  rcases Buf.pushU8_absT h.toT v with ⟨hgt, he⟩ | ⟨_, hok, hA⟩
+  · left; exact ⟨by simpa using hgt, he⟩
+  · right; exact ⟨hok, hA.toAbs⟩
+
+/-- `janet_buffer_push_u32`: four bytes, little endian -/
+theorem abs_buf_push_u32 (b : Buf) (xs : List Nat) (h : b.Abs xs) (w : Nat) :
+    ((xs.length : Int) + 4 > i32max ∧ b.pushU32 w = (b, .err)) ∨
+    ((b.pushU32 w).2 = .ok ∧ (b.pushU32 w).1.Abs (xs ++ [w % 256, w / 256 % 256, w / 65536 % 256, w / 16777216 % 256])) := by
+  rcases Buf.pushU32_absT h.toT w with ⟨hgt, he⟩ | ⟨_, hok, hA⟩
+  · left; exact ⟨by simpa [wordBytes] using hgt, he⟩
+  · right; exact ⟨hok, hA.toAbs⟩
+
+/-- a buffer pushed onto itself (goes through only for the overflow-safe source shape): "buffer overflow" with the
+buffer unchanged when twice the length exceeds INT32_MAX, else the contents doubled -/
+theorem abs_buf_push_self (b : Buf) (xs : List Nat) (h : b.Abs xs) :
+    ((xs.length : Int) + xs.length > i32max ∧ b.pushSelf = (b, .err)) ∨
+    (b.pushSelf.2 = .ok ∧ b.pushSelf.1.Abs (xs ++ xs)) := by
+  rcases Buf.pushSelf_absT h.toT with ⟨hgt, he⟩ | ⟨_, hok, hA⟩
+  · left; exact ⟨hgt, he⟩
+  · right; exact ⟨hok, hA.toAbs⟩
+
+/-- shape obligation: the self-alias branch of `buffer_push_impl` / `cfun_buffer_chars` tests the new length in 64 bits -/
+theorem bpush_self_no_ub : pushSelfNoOverflow = true := by decide
+
+/-- the other recognised shape (`janet_buffer_ensure(buffer, buffer->count + view.len, 2)`) adds in `int32_t`: witness
+(a buffer of 2^30 bytes pushed onto itself) -/
+theorem bpush_self_overflow_ub :
+    (Buf.pushSelfWith false { count := 1073741824, capacity := 1073741824, cells := #[] }).2 = .ub := by decide
+
+/-- **buffer/push dispatch** (`buffer_push_impl`): outcome and contents are `specPush` — integers push their low byte,
+byte sequences are appended, the buffer itself contributes its contents at that moment; the first ill-typed argument
+or overflow stops the loop with the error, the earlier arguments stay pushed -/
+theorem abs_buf_push_dispatch (b : Buf) (xs : List Nat) (h : b.Abs xs) (args : List BArg) :
+    (b.pushImpl args).2 = (if (specPush xs args).2 then .ok else .err) ∧ (b.pushImpl args).1.Abs (specPush xs args).1 :=
+  (Buf.pushImpl_absT args b xs [] h.toT).abs
+
+theorem abs_buf_push_byte (b : Buf) (xs : List Nat) (h : b.Abs xs) (args : List BArg) :
+    (b.pushByteArgs args).2 = (if (specPushByte xs args).2 then .ok else .err) ∧
+      (b.pushByteArgs args).1.Abs (specPushByte xs args).1 :=
+  (Buf.pushByteArgs_absT args b xs [] h.toT).abs
+
+theorem abs_buf_push_string (b : Buf) (xs : List Nat) (h : b.Abs xs) (args : List BArg) :
+    (b.pushStringArgs args).2 = (if (specPushStr xs args).2 then .ok else .err) ∧
+      (b.pushStringArgs args).1.Abs (specPushStr xs args).1 :=
+  (Buf.pushStringArgs_absT args b xs [] h.toT).abs
+
+theorem abs_buf_push_word (b : Buf) (xs : List Nat) (h : b.Abs xs) (args : List WArg) :
+    (b.pushWordArgs args).2 = (if (specPushWord xs args).2 then .ok else .err) ∧
+      (b.pushWordArgs args).1.Abs (specPushWord xs args).1 :=
+  (Buf.pushWordArgs_absT args b xs [] h.toT).abs
+
+/-- all arguments well typed and the final length within `int32_t`: buffer/push succeeds and appends everything -/
+example : specPush [1, 2] [.int 259, .bytes [7, 8], .self] = ([1, 2, 3, 7, 8, 1, 2, 3, 7, 8], true) := by decide
+example : specPush [1, 2] [.int 5, .bad, .int 6] = ([1, 2, 5], false) := by decide
+
+/-- **buffer/push-at**: index error ⇒ buffer unchanged; otherwise `specPushAt` (overwrite from the index, keep what
+lies beyond the pushed bytes; on a failing argument the buffer ends after the last pushed byte) -/
+theorem abs_buf_push_at (b : Buf) (xs : List Nat) (h : b.Abs xs) (index : Arg) (args : List BArg) :
+    (b.pushAt index args = (b, .err) ∧ ∀ i : Int, index = .int i → i < 0 ∨ i > xs.length) ∨
+    ∃ i : Int, index = .int i ∧ 0 ≤ i ∧ i ≤ xs.length ∧
+      (b.pushAt index args).2 = (if (specPushAt xs i.toNat args).2 then .ok else .err) ∧
+      (b.pushAt index args).1.Abs (specPushAt xs i.toNat args).1 := Buf.pushAt_abs h index args
+
+example : specPushAt [1, 2, 3, 4, 5] 1 [.int 9, .bytes [8]] = ([1, 9, 8, 4, 5], true) := by decide
+example : specPushAt [1, 2, 3] 2 [.bytes [7, 7, 7]] = ([1, 2, 7, 7, 7], true) := by decide
+/-- observation (kept as a theorem about the model, confirmed on the implementation by the correspondence): a failing
+argument of buffer/push-at leaves the buffer truncated after the last pushed byte -/
+theorem pushat_error_truncates : specPushAt [1, 2, 3, 4, 5] 1 [.int 9, .bad] = ([1, 9], false) := by decide
+
+theorem abs_buf_put (b : Buf) (xs : List Nat) (h : b.Abs xs) (key value : Arg) :
+    (b.put key value = (b, .err)) ∨
+    ∃ i v : Int, key = .int i ∧ value = .int v ∧ 0 ≤ i ∧ i < i32max - 1 ∧ (b.put key value).2 = .ok ∧
+      (b.put key value).1.Abs
+        ((if i ≥ xs.length then xs ++ List.replicate (i.toNat + 1 - xs.length) 0 else xs).set i.toNat (lowByte v)) :=
+  Buf.put_abs h key value
+
+theorem abs_buf_putindex (b : Buf) (xs : List Nat) (h : b.Abs xs) (index : Int) (value : Arg)
+    (h0 : 0 ≤ index) (h1 : index < i32max) :
+    (b.putindex index value = (b, .err) ∧ getInteger value = none) ∨
+    ∃ v : Int, value = .int v ∧ (b.putindex index value).2 = .ok ∧
+      (b.putindex index value).1.Abs (if index ≥ xs.length then xs ++ List.replicate (index.toNat - xs.length) 0 ++ [lowByte v]
+                                       else xs.set index.toNat (lowByte v)) := Buf.putindex_abs h index value h0 h1
+
+theorem abs_buf_trim (b : Buf) (xs : List Nat) (h : b.Abs xs) :
+    (b.trim).2 = .ok ∧ (b.trim).1.Abs xs ∧
+      (b.trim).1.capacity = (if (b.count : Int) < b.capacity then max (b.count : Int) bufferTrimMin else b.capacity) :=
+  Buf.trim_abs h
+
+theorem abs_buf_clear (b : Buf) (xs : List Nat) (h : b.Abs xs) : (b.clear).2 = .ok ∧ (b.clear).1.Abs [] := Buf.clear_abs h
+
+theorem abs_buf_fill_all (b : Buf) (xs : List Nat) (h : b.Abs xs) (byte : Option Arg) :
+    (byteArg byte = none ∧ b.fill byte = (b, .err)) ∨
+    ∃ v, byteArg byte = some v ∧ (b.fill byte).2 = .ok ∧ (b.fill byte).1.Abs (List.replicate xs.length v) :=
+  Buf.fill_abs_all h byte
+
+theorem abs_buf_new_filled (count : Arg) (byte : Option Arg) (hc : ∀ n, count = .int n → n ≤ i32max) :
+    (Buf.newFilled count byte = none ∧ (getInteger count = none ∨ byteArg byte = none)) ∨
+    ∃ n v r, count = .int n ∧ byteArg byte = some v ∧ Buf.newFilled count byte = some r ∧
+      r.Abs (List.replicate (max n 0).toNat v) := Buf.newFilled_abs count byte hc
+
+theorem abs_buf_from_bytes (args : List Arg) (hl : (args.length : Int) ≤ i32max) :
+    (Buf.fromBytes args = none ∧ getIntegers args = none) ∨
+    ∃ ns r, getIntegers args = some ns ∧ ns.length = args.length ∧ Buf.fromBytes args = some r ∧ r.Abs (ns.map lowByte) :=
+  Buf.fromBytes_abs args hl
+
+theorem abs_buf_slice (xs : List Nat) (hx : (xs.length : Int) ≤ i32max) (s e : Option Arg) :
+    (bsliceOf (xs.map some) s e = none ∧ getSlice xs.length s e = none) ∨
+    ∃ st en r, getSlice xs.length s e = some (st, en) ∧ 0 ≤ st ∧ st ≤ en ∧ en ≤ xs.length ∧
+      bsliceOf (xs.map some) s e = some r ∧ r.Abs ((xs.drop st.toNat).take (en - st).toNat) := bsliceOf_abs xs hx s e
+
+/-- **no_oob, buffer/blit decoding**: whatever the three range arguments are, the decoded source range lies inside
+the source and the destination offset inside `[0, count]` -/
+theorem no_oob_blit_decode (dlen slen : Int) (hd : 0 ≤ dlen) (hs : 0 ≤ slen) (ds ss : Option Arg) (argc4 : Bool)
+    (se : Option Arg) (od os ls : Int) (h : blitDecode dlen slen ds ss argc4 se = some (od, os, ls)) :
+    0 ≤ od ∧ od ≤ dlen ∧ 0 ≤ os ∧ 0 ≤ ls ∧ os + ls ≤ slen := blitDecode_bounds dlen slen hd hs ds ss argc4 se od os ls h
+
+/-- ... and after `janet_buffer_ensure(dest, last32, 2)` the destination range `[od, od + ls)` is inside the storage -/
+theorem no_oob_blit_dest (d : Buf) (xs : List Nat) (h : d.Abs xs) (od ls : Int)
+    (hfit : od + ls ≤ i32max) : ∃ d', d.ensure (od + ls) 2 = some d' ∧ od + ls ≤ d'.cells.size ∧ d'.Abs xs := by
+  obtain ⟨d', he, hd', hcc, _⟩ := Buf.ensure_abs h (od + ls) 2 (by omega) hfit
+  have := hd'.cap; have := hd'.pos
+  exact ⟨d', he, by omega, hd'⟩
+
+/-- **buffer/blit, complete** (decoding + alias guard + copy; `src = none` is the destination itself) -/
+theorem abs_buf_blit_full (d : Buf) (xs : List Nat) (h : d.Abs xs) (src : Option (List Nat)) (ds ss : Option Arg)
+    (argc4 : Bool) (se : Option Arg) :
+    (d.blit (src.map (·.map some)) ds ss argc4 se = (d, .err)) ∨
+    ∃ od os ls : Int, blitDecode xs.length (src.getD xs).length ds ss argc4 se = some (od, os, ls) ∧
+      0 ≤ od ∧ od ≤ xs.length ∧ 0 ≤ os ∧ 0 ≤ ls ∧ os + ls ≤ (src.getD xs).length ∧ od + ls ≤ i32max ∧
+      (d.blit (src.map (·.map some)) ds ss argc4 se).2 = .ok ∧
+      (d.blit (src.map (·.map some)) ds ss argc4 se).1.Abs
+        (xs.take od.toNat ++ ((src.getD xs).drop os.toNat).take ls.toNat ++
+          xs.drop (od.toNat + (((src.getD xs).drop os.toNat).take ls.toNat).length)) := Buf.blit_abs h src ds ss argc4 se
+
+/-- **no_oob, bit functions**: an accepted bit index addresses an initialised byte inside the storage -/
+theorem no_oob_bitloc (b : Buf) (xs : List Nat) (h : b.Abs xs) (x : BitArg) (i bit : Nat) (hl : b.bitloc x = some (i, bit)) :
+    i < b.count ∧ i < b.cells.size ∧ bit < 8 ∧ ∃ n : Int, x = .idx n ∧ 0 ≤ n ∧ n = 8 * (i : Int) + bit := by
+  have hb := Buf.bitloc_bounds b x i bit hl
+  have := h.rep.len_le; have := h.count_eq
+  exact ⟨hb.1, by omega, hb.2.1, hb.2.2⟩
+
+theorem abs_buf_bit_set (b : Buf) (xs : List Nat) (h : b.Abs xs) (x : BitArg) :
+    (b.bitSet x = (b, .err) ∧ b.bitloc x = none) ∨
+    ∃ i bit, b.bitloc x = some (i, bit) ∧ i < xs.length ∧ bit < 8 ∧ (b.bitSet x).2 = .ok ∧
+      (b.bitSet x).1.Abs (xs.set i (xs.getD i 0 ||| (1 <<< bit))) := Buf.bitSet_abs h x
+
+theorem abs_buf_bit_clear (b : Buf) (xs : List Nat) (h : b.Abs xs) (x : BitArg) :
+    (b.bitClear x = (b, .err) ∧ b.bitloc x = none) ∨
+    ∃ i bit, b.bitloc x = some (i, bit) ∧ i < xs.length ∧ bit < 8 ∧ (b.bitClear x).2 = .ok ∧
+      (b.bitClear x).1.Abs (xs.set i (xs.getD i 0 &&& (255 ^^^ (1 <<< bit)))) := Buf.bitClear_abs h x
+
+theorem abs_buf_bit_toggle (b : Buf) (xs : List Nat) (h : b.Abs xs) (x : BitArg) :
+    (b.bitToggle x = (b, .err) ∧ b.bitloc x = none) ∨
+    ∃ i bit, b.bitloc x = some (i, bit) ∧ i < xs.length ∧ bit < 8 ∧ (b.bitToggle x).2 = .ok ∧
+      (b.bitToggle x).1.Abs (xs.set i (xs.getD i 0 ^^^ (1 <<< bit))) := Buf.bitToggle_abs h x
+
+theorem abs_buf_bit_get (b : Buf) (xs : List Nat) (h : b.Abs xs) (x : BitArg) :
+    (b.bitGet x = .err ∧ b.bitloc x = none) ∨
+    ∃ i bit, b.bitloc x = some (i, bit) ∧ i < xs.length ∧ bit < 8 ∧
+      b.bitGet x = .num (if xs.getD i 0 &&& (1 <<< bit) ≠ 0 then 1 else 0) := Buf.bitGet_abs h x
+
+/-- buffer operations of a history; arguments arbitrary (ill-typed, out of range, negative, huge).  The two C-API
+entries carry what their C types guarantee: `janet_buffer_setcount` takes an `int32_t`, `janet_putindex` is called
+by the VM with a non-negative `int32_t` index below INT32_MAX -/
+inductive BOp where
+  | push (args : List BArg) | pushByte (args : List BArg) | pushString (args : List BArg) | pushWord (args : List WArg)
+  | pushAt (index : Arg) (args : List BArg) | popn (n : Arg) | fill (byte : Option Arg) | trim | clear
+  | put (key value : Arg) | blit (src : Option (List Nat)) (ds ss : Option Arg) (argc4 : Bool) (se : Option Arg)
+  | bitSet (x : BitArg) | bitClear (x : BitArg) | bitToggle (x : BitArg)
+  | setcount (c : Int) (hc : c ≤ i32max) | putindex (i : Int) (v : Arg) (h0 : 0 ≤ i) (h1 : i < i32max)
+
+def bstep (b : Buf) : BOp → Buf × Outcome Nat
+  | .push args => b.pushImpl args
+  | .pushByte args => b.pushByteArgs args
+  | .pushString args => b.pushStringArgs args
+  | .pushWord args => b.pushWordArgs args
+  | .pushAt index args => b.pushAt index args
+  | .popn n => b.popn n
+  | .fill byte => b.fill byte
+  | .trim => b.trim
+  | .clear => b.clear
+  | .put key value => b.put key value
+  | .blit src ds ss argc4 se => b.blit (src.map (·.map some)) ds ss argc4 se
+  | .bitSet x => b.bitSet x
+  | .bitClear x => b.bitClear x
+  | .bitToggle x => b.bitToggle x
+  | .setcount c _ => b.setcount c
+  | .putindex i v _ _ => b.putindex i v
+
+theorem bstep_case_err {b : Buf} {xs : List Nat} (h : b.Abs xs) {r : Buf × Outcome Nat} (e : r = (b, .err)) :
+    ∃ zs, r.1.Abs zs ∧ (r.2 = .ok ∨ r.2 = .err) := by
+  subst e; exact ⟨xs, h, Or.inr rfl⟩
+
+theorem bstep_case_ok {r : Buf × Outcome Nat} {zs : List Nat} (hA : r.1.Abs zs) (ho : r.2 = .ok) :
+    ∃ zs, r.1.Abs zs ∧ (r.2 = .ok ∨ r.2 = .err) := ⟨zs, hA, Or.inl ho⟩
+
+theorem bstep_case_if {r : Buf × Outcome Nat} {zs : List Nat} {c : Bool} (hA : r.1.Abs zs)
+    (ho : r.2 = if c then .ok else .err) : ∃ zs, r.1.Abs zs ∧ (r.2 = .ok ∨ r.2 = .err) := by
+  refine ⟨zs, hA, ?_⟩
+  cases c with
+  | true => left; simpa using ho
+  | false => right; simpa using ho
+
+/-- one step: the result is again a represented byte sequence, and the outcome is success or a raised error — never
+the out-of-memory exit and never undefined behaviour -/
+theorem bstep_abs (b : Buf) (xs : List Nat) (h : b.Abs xs) (op : BOp) :
+    ∃ zs, (bstep b op).1.Abs zs ∧ ((bstep b op).2 = .ok ∨ (bstep b op).2 = .err) := by
+  cases op with
+  | push args => have := abs_buf_push_dispatch b xs h args; exact bstep_case_if this.2 this.1
+  | pushByte args => have := abs_buf_push_byte b xs h args; exact bstep_case_if this.2 this.1
+  | pushString args => have := abs_buf_push_string b xs h args; exact bstep_case_if this.2 this.1
+  | pushWord args => have := abs_buf_push_word b xs h args; exact bstep_case_if this.2 this.1
+  | pushAt index args =>
+    rcases Buf.pushAt_abs h index args with ⟨e, _⟩ | ⟨i, _, _, _, ho, hA⟩
+    · exact bstep_case_err h e
+    · exact bstep_case_if hA ho
+  | popn n =>
+    rcases Buf.popn_abs h n with e | ⟨m, _, _, ho, hA⟩
+    · exact bstep_case_err h e
+    · exact bstep_case_ok hA ho
+  | fill byte =>
+    rcases Buf.fill_abs_all h byte with ⟨_, e⟩ | ⟨v, _, ho, hA⟩
+    · exact bstep_case_err h e
+    · exact bstep_case_ok hA ho
+  | trim => exact bstep_case_ok (Buf.trim_abs h).2.1 (Buf.trim_abs h).1
+  | clear => exact bstep_case_ok (Buf.clear_abs h).2 (Buf.clear_abs h).1
+  | put key value =>
+    rcases Buf.put_abs h key value with e | ⟨i, v, _, _, _, _, ho, hA⟩
+    · exact bstep_case_err h e
+    · exact bstep_case_ok hA ho
+  | blit src ds ss argc4 se =>
+    rcases Buf.blit_abs h src ds ss argc4 se with e | ⟨od, os, ls, _, _, _, _, _, _, _, ho, hA⟩
+    · exact bstep_case_err h e
+    · exact bstep_case_ok hA ho
+  | bitSet x =>
+    rcases Buf.bitSet_abs h x with ⟨e, _⟩ | ⟨i, bit, _, _, _, ho, hA⟩
+    · exact bstep_case_err h e
+    · exact bstep_case_ok hA ho
+  | bitClear x =>
+    rcases Buf.bitClear_abs h x with ⟨e, _⟩ | ⟨i, bit, _, _, _, ho, hA⟩
+    · exact bstep_case_err h e
+    · exact bstep_case_ok hA ho
+  | bitToggle x =>
+    rcases Buf.bitToggle_abs h x with ⟨e, _⟩ | ⟨i, bit, _, _, _, ho, hA⟩
+    · exact bstep_case_err h e
+    · exact bstep_case_ok hA ho
+  | setcount c hc => exact bstep_case_ok (Buf.setcount_abs h c hc).2 (Buf.setcount_abs h c hc).1
+  | putindex i v h0 h1 =>
+    rcases Buf.putindex_abs h i v h0 h1 with ⟨e, _⟩ | ⟨w, _, ho, hA⟩
+    · exact bstep_case_err h e
+    · exact bstep_case_ok hA ho
+
+/-- **for all operation sequences on a buffer** — whatever the arguments — the state stays a well-formed byte
+sequence (`count ≤ capacity`, storage of `capacity` cells, every byte below `count` initialised, both fields within
+`int32_t`), and no operation of the sequence ended the process or executed undefined behaviour -/
+theorem buf_inv_reachable (ops : List BOp) (b : Buf) (xs : List Nat) (h : b.Abs xs) :
+    (∃ ys, (ops.foldl (fun b op => (bstep b op).1) b).Abs ys) ∧
+    ∀ (pre : List BOp) (op : BOp) (post : List BOp), ops = pre ++ op :: post →
+      (bstep (pre.foldl (fun b op => (bstep b op).1) b) op).2 = .ok ∨
+      (bstep (pre.foldl (fun b op => (bstep b op).1) b) op).2 = .err := by
+  have reach : ∀ (l : List BOp) (b : Buf) (xs : List Nat), b.Abs xs → ∃ ys, (l.foldl (fun b op => (bstep b op).1) b).Abs ys := by
+    intro l
+    induction l with
+    | nil => intro b xs h; exact ⟨xs, h⟩
+    | cons op rest ih =>
+      intro b xs h
+      obtain ⟨zs, hz, _⟩ := bstep_abs b xs h op
+      exact ih _ zs hz
+  refine ⟨reach ops b xs h, ?_⟩
+  intro pre op post _
+  obtain ⟨ys, hy⟩ := reach pre b xs h
+  obtain ⟨_, _, ho⟩ := bstep_abs _ ys hy op
+  exact ho
+
+/-- non-vacuity: a fresh buffer is represented, and a history with failing ops keeps it so -/
+example : (Buf.new 0).Abs [] := Buf.new_abs 0 (by decide)
+example : ((bstep (bstep (Buf.new 0) (.push [.bytes [1, 2, 3]])).1 (.pushAt (.int 1) [.int 9, .bad])).1.items,
+           (bstep (bstep (Buf.new 0) (.push [.bytes [1, 2, 3]])).1 (.pushAt (.int 1) [.int 9, .bad])).2) =
+    ([some 1, some 9], .err) := by decide
+
+/-! ## Session 3 — arrays: array/new-filled, array/peek, array/clear -/
+
+theorem abs_new_filled (count : Arg) (x : Val) (hc : ∀ n, count = .int n → n ≤ i32max) :
+    (Arr.newFilled count x = none ∧ ∀ n, count = .int n → n < 0) ∨
+    ∃ n r, count = .int n ∧ 0 ≤ n ∧ Arr.newFilled count x = some r ∧ r.Abs (List.replicate n.toNat x) := by
+  unfold Arr.newFilled
+  cases count with
+  | nil => left; exact ⟨rfl, fun n hn => by cases hn⟩
+  | bad => left; exact ⟨rfl, fun n hn => by cases hn⟩
+  | int n =>
+    simp only []
+    by_cases c : n < 0
+    · left; rw [if_pos c]; exact ⟨rfl, fun m hm => by cases hm; exact c⟩
+    · right
+      rw [if_neg c]
+      refine ⟨n, _, rfl, by omega, rfl, ⟨by simp, ?_, by simp, hc n rfl⟩⟩
+      have := rep_toArray_map (List.replicate n.toNat x)
+      simpa using this
+
+theorem abs_peek (a : Arr) (xs : List Val) (h : a.Abs xs) :
+    (a.peek).1 = a ∧ (a.peek).2 = .val (some (xs.getLast?.getD vNil)) := by
+  have hp := Arr.pop_abs h
+  unfold Arr.pop at hp
+  unfold Arr.peek
+  by_cases h0 : a.count ≠ 0
+  · rw [if_pos h0] at hp ⊢; exact ⟨rfl, hp.2⟩
+  · rw [if_neg h0] at hp ⊢; exact ⟨rfl, hp.2⟩
+
+theorem abs_clear_seq (a : Arr) (xs : List Val) (h : a.Abs xs) : (a.clear).2 = .ok ∧ (a.clear).1.Abs [] :=
+  ⟨rfl, Arr.clear_abs h⟩
 
 end JanetModel.Props.C04
